@@ -119,6 +119,8 @@ def detect_one(sid):
             return sid, {}, 'analysis error: %s' % e
         for p in sorted(PROPS):
             rdefs.reset_cache()
+            from sa import normalize as _nz
+            _nz.reset()
             try:
                 viol, results = run_property(p, 'quick', 0, model=model, quiet=True, write=False)
                 if viol:
@@ -204,6 +206,8 @@ def neutral_one(src):
             return src, {'*': ['ANALYSIS-ERROR %s' % e]}, ''
         for p in sorted(PROPS):
             rdefs.reset_cache()
+            from sa import normalize as _nz
+            _nz.reset()
             try:
                 viol, results = run_property(p, 'quick', 0, model=model, quiet=True, write=False)
                 if viol:
